@@ -144,7 +144,7 @@ func (w *e1World) porcupineCheck(all []*opRec, seqsI interface{}, cfg *e1Config)
 			o := op.Input.(*linInput).o
 			hs = append(hs, kindNames[o.d.kind])
 		}
-		r.Violate("C13:linearizable", "the history of %d operations on the shared log (%s) has no linearisation against the sequential set model", len(ops), strings.Join(hs, " "))
+		r.Violate(cfg.prop+":linearizable", "the history of %d operations on the shared log (%s) has no linearisation against the sequential set model", len(ops), strings.Join(hs, " "))
 	case porcupine.Unknown:
 		r.Count("porcupine-inconclusive")
 	default:
